@@ -18,6 +18,16 @@ for sid in sys.argv[1:]:
     else:
         rc1 = subprocess.run(['/venv/bin/python', d + '/demo.py'], cwd=wt, env=env, capture_output=True).returncode
         tests = [t for t in meta.get('tests_run', []) if t.split('::')[0].endswith('.py') and os.path.exists(os.path.join(wt, t.split('::')[0]))]
+        if not tests:
+            # the agent named directories / descriptions: use directories it named, else the tests next to the touched files
+            import re
+            tests = [t.rstrip('/') for t in meta.get('tests_run', []) if isinstance(t, str) and os.path.isdir(os.path.join(wt, t.split(' ')[0].rstrip('/')))]
+            tests = [t.split(' ')[0] for t in tests]
+            if not tests:
+                for f in re.findall(r'^\+\+\+ b/(\S+)', open(d + '/patch.diff').read(), re.M):
+                    td = os.path.join(os.path.dirname(f), 'tests')
+                    if os.path.isdir(os.path.join(wt, td)) and td not in tests:
+                        tests.append(td)
         p = subprocess.run(['/venv/bin/python', '-m', 'pytest', '-q', '-p', 'no:cacheprovider', '-n', '4', '--timeout=900'] + tests[:15], cwd=wt, env=env, capture_output=True, text=True) if tests else None
         tail = p.stdout.strip().splitlines()[-1] if p and p.stdout.strip() else 'no test files listed'
         meta['lead_confirmation'] = {'applies_to_head': True, 'demo_clean_rc': rc0, 'demo_patched_rc': rc1, 'tests_rerun': tests[:15], 'tests_ok': (p.returncode == 0) if p else None, 'tests_tail': tail,
